@@ -220,6 +220,11 @@ def judge_real(case, obs):
         # C19 on the real run: bore field table = selected coordinates, loads echoed in order, g table rows strictly increasing
         if [[float(a), float(b_)] for a, b_ in rows] != [[x, y] for x, y in coords]:
             v("C19", "borefield_table_wrong", "BoreFieldData.csv rows differ from the returned coordinates")
+        # ... and the field the search says it selected is that same field
+        sel = getattr(m._search, "selected_coordinates", None)
+        if sel is not None and [[float(a), float(b_)] for a, b_ in rows] != [[float(x), float(y)] for x, y in sel]:
+            v("C19", "borefield_table_wrong", f"BoreFieldData.csv lists {len(rows)} boreholes, the search's selected_coordinates has {len(sel)}", where="selected_coordinates")
+            v("C12", "nbh_mismatch", f"the files describe {len(rows)} boreholes, the search selected {len(sel)}", where="selected_coordinates")
         lrows = list(csv.reader(io.StringIO(files["Loadings.csv"])))[1:]
         loads = m._ground_loads
         if len(lrows) != 8760 or any(float(lrows[i][4]) != float(loads[i]) or int(lrows[i][3]) != i for i in range(0, 8760, 7)):
